@@ -431,4 +431,23 @@ theorem readall_fuel_irrelevant (s : St) (hi : Inv s) (g : Nat) (hg : s.limit - 
     readallLoop g s [] = readallLoop (s.limit - s.pos + 1) s [] :=
   readallLoop_fuel g _ s [] hi hg (by omega)
 
+/-! ### line-oriented reads (CPython's `IOBase.readline / __next__ / readlines` over `readinto`) -/
+
+/-- **Lines are lines**: whatever the underlying stream does, a line returned by `readline(limit)`
+contains a newline at most as its last byte and respects the size argument; `next()` never returns
+an empty line; every line of `readlines(hint)` is non-empty and newline-terminated at most at its end.
+Together with `yielded_is_prefix` (the concatenation of everything returned is `data[:pos]`, never
+more than `limit` bytes) the lines are consecutive slices of the client's data cut after newlines. -/
+theorem lines_are_lines (s : St) :
+    (∀ lim l, (readline s lim).1 = .ok l → LineShaped l ∧ ∀ n, lim = some n → l.length ≤ n) ∧
+    (∀ l, (next s).1 = .ok l → l ≠ [] ∧ LineShaped l) ∧
+    (∀ hint ls, (readlines s hint).1 = .ok ls → ∀ l ∈ ls, l ≠ [] ∧ LineShaped l) := by
+  refine ⟨fun lim l h => readline_shape s lim l h, fun l h => next_shape s l h, ?_⟩
+  intro hint ls h
+  unfold readlines at h
+  exact readlinesLoop_shape _ s _ 0 [] ls (by simp) h
+
+example : (runOps (fresh [97, 10, 98, 99, 10, 100] [.give 2] 5 false true) [.readline none, .readlines none]).1
+    = [.ok [[97, 10]], .ok [[98, 99, 10]]] := by rfl
+
 end Wz.Props.C09
